@@ -315,12 +315,16 @@ type BoundedResult struct {
 }
 
 func runBoundedGroups(opts *RunOpts, groups []boundedGroup, bound int) ([]BoundedResult, error) {
+	budgetS := 240
+	if opts.Tier == "thorough" {
+		budgetS = 900
+	}
 	if len(groups) == 0 {
 		return nil, nil
 	}
 	// schema variable import map
 	var b bytes.Buffer
-	b.WriteString("package main\n\nimport (\n\t\"context\"\n\t\"encoding/json\"\n\t\"os\"\n\t\"sort\"\n\t\"strings\"\n\tam \"" + machinePkg + "\"\n")
+	b.WriteString("package main\n\nimport (\n\t\"context\"\n\t\"encoding/json\"\n\t\"os\"\n\t\"sort\"\n\t\"strings\"\n\t\"time\"\n\tam \"" + machinePkg + "\"\n")
 	pk := map[string]string{}
 	for _, g := range groups {
 		if _, ok := pk[g.Pkg]; !ok {
@@ -363,7 +367,7 @@ func explore(name, group string, schema am.Schema, members []string, bound int) 
 	}
 	seen := map[string]bool{"": true}
 	queue := []node{{}}
-	for len(queue) > 0 && r.States < bound {
+	for len(queue) > 0 && r.States < bound && time.Now().Before(deadline) {
 		cur := queue[0]
 		queue = queue[1:]
 		r.States++
@@ -406,7 +410,12 @@ func explore(name, group string, schema am.Schema, members []string, bound int) 
 	return r
 }
 
+// the whole exploration has a wall-clock budget: it stops (not exhausted, states reported)
+// instead of being killed by the harness
+var deadline time.Time
+
 func main() {
+	deadline = time.Now().Add(` + fmt.Sprint(budgetS) + ` * time.Second)
 	var out []res
 `)
 	for _, g := range groups {
